@@ -273,6 +273,20 @@ pub fn run(cfg: &Cfg) -> Stats {
                     }
                 }
             }
+            // every grey and every colour within 2 of a grey in one component (ties between the cube and the grey ramp)
+            for v in 0..=255u32 {
+                k += 1;
+                if k % n != shard {
+                    continue;
+                }
+                let v = v as u8;
+                eval((v, v, v), &mut st, true);
+                for d in [1u8, 2] {
+                    for (r, g, b) in [(v.saturating_add(d), v, v), (v, v.saturating_add(d), v), (v, v, v.saturating_add(d)), (v.saturating_sub(d), v, v), (v, v.saturating_sub(d), v), (v, v, v.saturating_sub(d))] {
+                        eval((r, g, b), &mut st, true);
+                    }
+                }
+            }
             let mut i = shard;
             while i < nrand {
                 let mut rng = Rng::new(cfg.seed, 0xC10_4000_0000 + i);
